@@ -33,7 +33,7 @@ import (
 // ---- scripted caller-supplied handler -------------------------------------------------------
 
 type c01ScriptStep struct {
-	Kind    int    `json:"kind"` // 0 ok, 1 continuable error, 2 fatal error, 3 io.EOF, 4 bytes together with a continuable error, 5 bytes together with a fatal error
+	Kind    int    `json:"kind"` // 0 ok, 1 continuable error, 2 fatal error, 3 io.EOF, 4 bytes together with a continuable error, 5 bytes together with a fatal error, 6 fatal error that wraps an ErrTransformFailed
 	Payload string `json:"payload"`
 }
 
@@ -73,6 +73,8 @@ func (g *c01Ingester) Read() (schemahandler.RawRecord, []byte, error) {
 		return nil, nil, &c01FatalErr{msg: "fatal " + s.Payload}
 	case 3:
 		return nil, nil, io.EOF
+	case 6:
+		return nil, nil, fmt.Errorf("giving up after too many bad records, last one: %w", errs.ErrTransformFailed("bad record "+s.Payload))
 	case 4:
 		return &c01Raw{v: s.Payload}, b, &c01ContErr{msg: "continuable-with-bytes " + s.Payload}
 	default:
@@ -127,7 +129,7 @@ func genC01(t *rapid.T) c01Case {
 	case "scripted":
 		n := rapid.IntRange(0, 8).Draw(t, "nscript")
 		for i := 0; i < n; i++ {
-			k := rapid.SampledFrom([]int{0, 0, 0, 1, 1, 2, 2, 3, 4, 5}).Draw(t, fmt.Sprintf("sk%d", i))
+			k := rapid.SampledFrom([]int{0, 0, 0, 1, 1, 2, 2, 3, 4, 5, 6}).Draw(t, fmt.Sprintf("sk%d", i))
 			c.Script = append(c.Script, c01ScriptStep{Kind: k, Payload: fmt.Sprintf("p%d", i)})
 		}
 		nrec = n
@@ -304,6 +306,32 @@ func checkC01(c c01Case) obs.Result {
 			if rr != nil || !c01SameErr(err, lastErr) {
 				return fmt.Sprintf("RawRecord after a failed Read (%v) returned (%v, %v); want that Read's error", lastErr, rr, err)
 			}
+		}
+		return ""
+	}
+	// scripted handler: the handler decides what is continuable, so the class of every result before the terminal one
+	// is known from the script (independently of errs.IsErrTransformFailed, which the contract automaton relies on)
+	scriptPos := 0
+	readOnce := doRead
+	doRead = func() string {
+		before := state
+		msg := readOnce()
+		if msg != "" || c.Mode != "scripted" || before == stTerminal {
+			return msg
+		}
+		want := stTerminal // past the end of the script: io.EOF
+		if scriptPos < len(c.Script) {
+			switch c.Script[scriptPos].Kind {
+			case 0:
+				want = stOK
+			case 1, 4:
+				want = stFailed
+			}
+		}
+		scriptPos++
+		if state != want {
+			names := map[int]string{stOK: "a record", stFailed: "a per-record failure", stTerminal: "a terminal error"}
+			return fmt.Sprintf("scripted handler step %d: the ingester's result makes this Read %s, the Transform reported %s (error %v)", scriptPos, names[want], names[state], lastErr)
 		}
 		return ""
 	}
